@@ -26,7 +26,10 @@ def gen_case(ctx, i):
     maps = pc.gen_maps(r, kind)
     thr = float(THRS[int(r.integers(0, len(THRS)))])
     patch = int(r.choice([2, 3, 4, 5, 7]))
-    return {"i": i, "kind": kind, "thr": thr, "patch": patch, "maps": maps, "solo": bool(i % 3 == 0)}
+    f64 = bool(r.random() < 0.15)
+    if f64:  # float64 maps whose neighbouring cells differ by less than float32 resolution (near-ties that only float64 arithmetic orders)
+        maps = maps.astype(np.float64) + r.integers(0, 7, maps.shape) * 1e-10  # non-negative: same-sign patches stay same-sign
+    return {"i": i, "kind": kind, "thr": thr, "patch": patch, "maps": maps, "solo": bool(i % 3 == 0), "f64": f64}
 
 
 def directed(ctx):
@@ -62,8 +65,11 @@ def check(ctx, case):
     import torch
     from sleap_nn.inference import peak_finding as pf
 
-    maps = case["maps"] if isinstance(case["maps"], np.ndarray) else unjson_array(case["maps"], np.float32)
-    maps = np.ascontiguousarray(maps, dtype=np.float32)
+    dt = np.float64 if case.get("f64") else np.float32
+    maps = case["maps"] if isinstance(case["maps"], np.ndarray) else unjson_array(case["maps"], dt)
+    maps = np.ascontiguousarray(maps, dtype=dt)
+    if case.get("f64"):
+        ctx.count("float64_cases")
     S, C, H, W = maps.shape
     thr, patch = case["thr"], case["patch"]
     small = dict(case)
@@ -88,7 +94,7 @@ def check(ctx, case):
         miss = sorted(oracle - set(got_cells))[:3]
         ctx.violation("peak-set", f"returned cells != strict 8-neighbour maxima above {thr}: extra (s,c,y,x)={extra} missing={miss}", small)
     else:
-        bad = [(s, c, y, x, v) for s, c, y, x, v in got if not (0 <= s < S and 0 <= c < C) or maps[s, c, int(y), int(x)] != np.float32(v)]
+        bad = [(s, c, y, x, v) for s, c, y, x, v in got if not (0 <= s < S and 0 <= c < C) or maps[s, c, int(y), int(x)] != dt(v)]
         if bad:
             ctx.violation("peak-value", f"reported value differs from the map at the peak: {bad[:2]}", small)
     # batch independence (rough): each map alone
@@ -138,7 +144,7 @@ def check(ctx, case):
                         if a.shape != b.shape or (fin and np.abs(a - b).max() > 2e-3) or (not fin and not np.array_equal(np.isnan(a), np.isnan(b))):
                             ctx.violation("refine-batch-dependence", f"refined peaks of map (s={s},c={c}) differ between batch and solo call", small)
     interesting = n_nt >= 2 or case["kind"] in ("quantised", "border", "tiny", "constant")
-    sig = (case["kind"], H, W, thr, patch, min(n_nt, 8)) if interesting else None
+    sig = (case["kind"], H, W, thr, patch, min(n_nt, 8), bool(case.get("f64"))) if interesting else None
     ctx.tick(sig, sample={"kind": case["kind"], "shape": [S, C, H, W], "thr": thr, "patch": patch, "oracle_peaks": sorted(oracle)[:6]} if case["i"] in (0, 1, 2, 3) else None)
 
 
@@ -150,6 +156,7 @@ def finalize(ctx):
     ctx.require("rough_calls", 10)
     ctx.require("refined_points", 10)
     ctx.require("solo_calls", 10)
+    ctx.require("float64_cases", 5)
 
 
 LEVEL_TEXT = ("Every real find_local_peaks_rough / find_local_peaks call on seeded maps is compared with a brute-force neighbour scan (soundness, completeness, "
